@@ -53,6 +53,13 @@ type oracle struct {
 	viols    []explore.Viol
 	voided   map[int]bool             // down periods (index into hist) whose pending failover the controller reported as canceled
 	closed   bool                     // set by the epilogue: callbacks succeed immediately and nothing is recorded any more
+	// Engine B: a report is "delivered" when the thread carrying it has acquired the controller's lock (before that
+	// the controller cannot know of it; a timer that fires in between legitimately wins). deliverAt returns the name of
+	// the running thread; inflight holds the report each thread is carrying.
+	monDownAt time.Time // instant of the monitor's most recent partner_down report
+	monDown   bool
+	curThread func() string
+	inflight  map[string]ha.HealthEventType
 	onCbHook func()                   // Engine B: a role-change callback has been invoked
 	onEvHook func(e ha.FailoverEvent) // Engine B: lets a thread wait for an event
 }
@@ -82,9 +89,9 @@ func (o *oracle) logf(f string, a ...any) {
 
 // ---- inputs
 
-func (o *oracle) down() { o.mon.VerifC14ProbeFailed() }
+func (o *oracle) down() { o.mon.VerifC14ProbeFailed(); o.delivered() }
 
-func (o *oracle) up() { o.mon.VerifC14ProbeSucceeded() }
+func (o *oracle) up() { o.mon.VerifC14ProbeSucceeded(); o.delivered() }
 
 // onHealth records what the monitor REPORTS (partner_down / partner_up), in
 // the order it reports it: that is the history "the partner was reported down
@@ -95,7 +102,31 @@ func (o *oracle) onHealth(e ha.HealthEvent) {
 	if o.closed {
 		return
 	}
-	switch e.Type {
+	if e.Type == ha.HealthEventPartnerDown {
+		o.monDownAt, o.monDown = o.now(), true // what the MONITOR says, from this instant on (F5 consults the monitor directly)
+	}
+	if o.curThread != nil && (e.Type == ha.HealthEventPartnerDown || e.Type == ha.HealthEventPartnerUp) {
+		o.inflight[o.curThread()] = e.Type // recorded by delivered()
+		return
+	}
+	o.record(e.Type)
+}
+
+// delivered: the running thread has taken the controller's lock (or its monitor call has returned): the report it
+// carries, if any, has reached the controller now.
+func (o *oracle) delivered() {
+	if o.curThread == nil {
+		return
+	}
+	t := o.curThread()
+	if ty, ok := o.inflight[t]; ok {
+		delete(o.inflight, t)
+		o.record(ty)
+	}
+}
+
+func (o *oracle) record(ty ha.HealthEventType) {
+	switch ty {
 	case ha.HealthEventPartnerDown:
 		if o.partnerUp {
 			o.hist = append(o.hist, hev{o.now(), false})
@@ -152,6 +183,9 @@ func (o *oracle) classifyUnsustained(T time.Time) (kind, site string) {
 }
 
 func (o *oracle) lastDown() (time.Time, bool) {
+	if o.monDown {
+		return o.monDownAt, true
+	}
 	for i := len(o.hist) - 1; i >= 0; i-- {
 		if !o.hist[i].up {
 			return o.hist[i].t, true
